@@ -244,12 +244,17 @@ def rule_impl(job):
                     outs[-1].append('SAME-INSTANCE-YIELDED-TWICE-OR-NOT-NEW')
                 # every instance CONSTRUCTED by this evaluation (registered with the class), yielded or not
                 built.append([render(o) for o in _instances(Variable, Vw) if id(o) not in known_])
+            while held:
+                held.pop().close()   # closing an abandoned iterator must not raise (an exception here is reported)
             res['impl'][key] = {'outs': outs, 'built': built}
         except Exception as e:
             res['impl'][key] = {'exc': f'{type(e).__name__}: {str(e)[:200]}'}
         finally:
             for it_ in held:
-                it_.close()
+                try:
+                    it_.close()
+                except Exception:
+                    pass
             enable_caching()
             impl.reset_library_state()
     return res
